@@ -325,3 +325,24 @@ def assigned_vars(fn, e):
         if t is not None and t["k"] == "var" and b is not None and b["k"] == "var" and t["n"] != b["n"]:
             out.add(t["n"])
     return out
+
+
+def natural_loops(fn):
+    """header block id -> set of body block ids (natural loops over feasible edges)"""
+    dom = dominators(fn)
+    preds = fn.preds()
+    loops = {}
+    for b in dom:
+        for s_, _, _ in edges(fn, b):
+            if s_ in dom.get(b, ()):
+                body, st = {s_, b}, [b]
+                while st:
+                    x = st.pop()
+                    if x == s_:
+                        continue
+                    for p_ in preds.get(x, []):
+                        if p_ not in body and p_ in dom:
+                            body.add(p_)
+                            st.append(p_)
+                loops.setdefault(s_, set()).update(body)
+    return loops
